@@ -87,6 +87,19 @@ func genCoreScenario(rng *vrng, idx int64, part string) coreScenario {
 	oneWay := rng.chance(0.3)
 	sc.AppA = gen(sc.CfgA, sc.CfgB, false)
 	sc.AppB = gen(sc.CfgB, sc.CfgA, oneWay)
+	// now and then the application raises the MTU in mid-stream: what is queued
+	// was cut for the old MSS and must still come out in order
+	if rng.chance(0.12) {
+		for _, pr := range []struct {
+			c *coreCfg
+			a *appScript
+		}{{&sc.CfgA, &sc.AppA}, {&sc.CfgB, &sc.AppB}} {
+			if m := pr.c.Mtu; m != 0 && m < 1400 {
+				pr.a.MtuRaiseAfter = rng.between(1, 12)
+				pr.a.MtuRaiseTo = rng.between(m+1, 1500)
+			}
+		}
+	}
 	sc.LimitMs = int64(sc.Net.HealAt) + 6*3600*1000
 	return sc
 }
